@@ -11,7 +11,7 @@ From Coq Require Import NArith List Bool Arith Permutation Relations.
 From DBG Require Import Proofs.AbstractWalk.
 From DBG Require Import Spec.Dna Spec.GraphIndex Spec.Unitig Spec.CompressSpec Packed.ExtsModel Algo.Compress
   Check.GraphCheck Check.CompressHyp Proofs.CompressBasics Proofs.CompressRefine Proofs.CompressWalk
-  Proofs.CompressProofs Proofs.UnitigProofs Proofs.CompressHypProofs.
+  Proofs.CompressProofs Proofs.UnitigProofs Proofs.CompressHypProofs Check.UnitigCheck Proofs.UnitigCheckProofs.
 Import ListNotations.
 Local Open Scope nat_scope.
 
@@ -53,6 +53,17 @@ Theorem C02_no_hidden_branch : forall D reduce join K stranded, 1 <= K -> forall
       linked (mstep D join stranded T) ids.
 Proof. exact no_hidden_branch. Qed.
 Print Assumptions C02_no_hidden_branch.
+
+(* The boolean checker run on the IMPLEMENTATION's nodes (path form: table well-formed, window keys of all nodes
+   a permutation of the table, every junction inside a node a mergeable link, no mergeable link leaving a node)
+   is sound for the property: acceptance implies same_node <-> mconn on the implementation's output. *)
+Theorem C02_chk_c02p_sound : forall D join K stranded (T : table D) (nodes : list (node D)),
+  chk_c02p D join K stranded T nodes = true ->
+  tbl_ok D K stranded T /\
+  forall i j, i < length T -> j < length T ->
+    (same_node D K stranded nodes (kkey D T i) (kkey D T j) <-> mconn D join stranded T i j).
+Proof. exact chk_c02p_sound. Qed.
+Print Assumptions C02_chk_c02p_sound.
 
 (* Uniqueness of the decomposition.  Full statement (NOT proved at sequence level):
      forall T T', Permutation T T' -> the multisets of node sequences of compress T and compress T' agree up to
